@@ -22,6 +22,7 @@ Definition c06_interface_text (n : str) (ms : list (str * (bool * (bool * str)))
 Definition c06_zobject_text (n : str) (ms : list (str * (bool * (bool * str)))) : str := zobject_text n (map c06_mk_member ms).
 Definition c06_alias_text (n : str) (names : list str) : str := alias_text n names.
 Definition c06_zenum_text (n : str) (names : list str) : str := zenum_text n names.
+Definition c06_lex (s : str) : list TT.Spec.TsLex.tk := TT.Spec.TsLex.lex_module s.
 
 Extraction Language OCaml.
-Extraction "tt_c06.ml" c06_group_string c06_cgroup_string c06_model c06_model_raw c06_spec c06_oracle c06_in_domain c06_classes c06_read_keys c06_interface_text c06_zobject_text c06_alias_text c06_zenum_text.
+Extraction "tt_c06.ml" c06_group_string c06_cgroup_string c06_model c06_model_raw c06_spec c06_oracle c06_in_domain c06_classes c06_read_keys c06_interface_text c06_zobject_text c06_alias_text c06_zenum_text c06_lex.
